@@ -81,7 +81,7 @@ theorem build_parrot (cfg : Cfg) (load : Bool) (lr : LoadRes) (s : St) (hg : cfg
     cases o with
     | some o => simp at ht
     | none =>
-      have ht' : lockedSame cfg s s' = true := by simpa [lockedSame] using ht
+      have ht' : lockedSame cfg load s s' = true := by simpa [lockedSame] using ht
       show BuiltOk cfg load s s'
       exact Or.inl ⟨hl, ht'⟩
   | notBuilt =>
